@@ -81,6 +81,10 @@ def run(chk, repo, tier):
                   floor=2)
     O7 = chk.rule('O7', 'a compartment variable passed to a replacing builder call is not used afterwards in '
                         'add_flow/remove_flow/remove_compartment without rebinding', floor=40)
+    O8 = chk.rule('O8', 'no read of a named CompartmentalSystem copy after its builder was mutated (stale snapshot), '
+                        'all functions', floor=5)
+    from sa import snapshot
+    snapshot.run_rule(chk, O8, repo)
 
     # ---------------------------------------------------------------- O1
     for acc in ('amounts', 'compartment_names', 'compartmental_matrix', 'zero_order_inputs'):
